@@ -125,8 +125,10 @@ def hostile_manifests(sb, R, rng, tier):
     """a cache manifest whose entry would land outside the artifact's directory"""
     viol = []
     for entry in HOSTILE_ENTRY:
-        for variant in ("path", "key+path", "nested", "dirchain"):
+        for variant in ("path", "key+path", "nested", "dirchain", "toppath", "nested-toppath"):
             if variant == "dirchain" and entry not in ("..", "../..", "./x", "a/b"):
+                continue
+            if variant in ("toppath", "nested-toppath") and entry not in ("../escape2.txt", "../../escape2.txt", "..", "../..", "/tmp/verif-abs-escape"):
                 continue
             proj = sb.project()
             root = proj.root
@@ -160,6 +162,13 @@ def hostile_manifests(sb, R, rng, tier):
                 d2 = put(mid)
                 man = b'{"path":"data","contents":{' + gojson_str(entry.encode()) + b':{"checksum":"' + d2.encode() + b'","path":' + \
                     gojson_str(entry.encode()) + b',"is-dir":true}}}\n'
+            elif variant == "toppath":
+                # every entry is a plain child; the manifest's OWN `path` field is the hostile string (nothing should read it)
+                man = b'{"path":' + gojson_str(entry.encode()) + b',"contents":{"a.txt":{"checksum":"' + blob.encode() + b'","path":"a.txt"}}}\n'
+            elif variant == "nested-toppath":
+                inner = b'{"path":' + gojson_str(entry.encode()) + b',"contents":{"b.txt":{"checksum":"' + blob.encode() + b'","path":"b.txt"}}}\n'
+                di = put(inner)
+                man = b'{"path":"data","contents":{"sub":{"checksum":"' + di.encode() + b'","path":"sub","is-dir":true}}}\n'
             elif variant == "nested":
                 inner = b'{"path":"sub","contents":{' + gojson_str(key.encode()) + b':' + child + b'}}\n'
                 di = put(inner)
@@ -193,7 +202,8 @@ def hostile_manifests(sb, R, rng, tier):
             stray = [p for p in inside_after if p not in inside_before and not p.startswith(os.path.join(root, "data"))]
             if stray:
                 viol.append(("manifest-escape-inside", "manifest entry path %r (%s): created %s outside the artifact's directory" % (entry, variant, stray[:3])))
-            if dict(rcs).get("checkout") == 0 or dict(rcs).get("checkout --copy") == 0:
+            # (a manifest's OWN path field names nothing that is created: ignoring it is fine, only where things land is judged)
+            if variant not in ("toppath", "nested-toppath") and (dict(rcs).get("checkout") == 0 or dict(rcs).get("checkout --copy") == 0):
                 viol.append(("manifest-accepted", "checkout exited 0 for a manifest with entry path %r (%s)" % (entry, variant)))
             proj.cleanup()
     return viol
@@ -255,8 +265,10 @@ def symlinked_places(sb, R, rng, tier):
     """where a committed directory (the artifact itself, or a sub-directory of it) belongs, the workspace holds a symbolic link to an
     existing directory OUTSIDE the project: checkout must not write through it"""
     viol = []
-    for where in ("artifact", "subdir", "deep"):
+    for where in ("artifact", "subdir", "deep", "file"):
         for cmd in (["checkout"], ["checkout", "--copy"], ["commit"], ["commit", "--copy"], ["status"], ["push"]):
+            if where == "file" and cmd[0] != "commit":
+                continue
             proj = sb.project()
             root = proj.root
             os.makedirs(os.path.join(root, "data", "sub", "deeper"))
@@ -276,9 +288,15 @@ def symlinked_places(sb, R, rng, tier):
                                                                ("sub/deeper/c.txt", "outside c"), ("deeper/c.txt", "ccc"))):
                 os.makedirs(os.path.dirname(os.path.join(big, relp)), exist_ok=True)
                 open(os.path.join(big, relp), "w").write(txt)
-            rel = {"artifact": "data", "subdir": "data/sub", "deep": "data/sub/deeper"}[where]
-            shutil.rmtree(os.path.join(root, rel))
-            os.symlink(big, os.path.join(root, rel))
+            rel = {"artifact": "data", "subdir": "data/sub", "deep": "data/sub/deeper", "file": "data/sub/b.txt"}[where]
+            if where == "file":
+                # a tracked FILE is a link with an absolute target to a live regular file outside the project
+                os.unlink(os.path.join(root, rel))
+                os.chmod(os.path.join(big, "keep.txt"), 0o644)
+                os.symlink(os.path.join(big, "keep.txt"), os.path.join(root, rel))
+            else:
+                shutil.rmtree(os.path.join(root, rel))
+                os.symlink(big, os.path.join(root, rel))
             before = sb.outside(proj)
             rc, so, se = proj.dud(cmd, cwd=root)
             after = sb.outside(proj)
